@@ -1227,10 +1227,11 @@ def run (o : Opts) (pol : Pol) : Nat → Mach → Str → RunRes
     | .indicator m inp => .indicator m inp
     | .panic e => .panic e
 
-/-- fuel that always suffices for `run` (theorem `run_fuel_suffices`) -/
+/-- fuel that always suffices for `run` (theorem `C04_tok_run_terminates` in `Props/C04Term.lean`):
+17 steps per unread or stashed character plus a constant -/
 def fuelFor (m : Mach) (inp : Str) : Nat :=
-  4 * (inp.length + m.tempBuf.length
-        + (match m.charRef with | some cr => (cr.nameBuf.getD []).length + 4 | none => 0)) + 16
+  17 * (inp.length + m.tempBuf.length
+        + (match m.charRef with | some cr => (cr.nameBuf.getD []).length + 2 | none => 0)) + 16
 
 /-- the BOM prologue of `Tokenizer::feed` (fixed behaviour: the flag is consumed by the first
 character ever seen) -/
